@@ -153,6 +153,10 @@ def first_stage(rep, prog, tmo, failures):
             return MM.ret(st, MI.UNIT)
         if re.search(r"without_snark_fields$", f):
             return MM.ret(st, MM.deref_all(I, st, args[0]))
+        if re.search(r"number_of_registered_parties$", f):
+            nreg = z3.Int("number_of_registered_parties")
+            st.assume(z3.And(nreg >= 1, nreg < 2 ** 32))
+            return MM.ret(st, nreg)
         return None
     I.models = [models] + I.models
     f = prog.find_one(r"concatenation/proof\.rs.*>::aggregate_signatures$")
